@@ -1,4 +1,4 @@
-CONSTANT Tok = {1, 2}
+CONSTANT Tok = {1, 2, 3}
 INIT MCInit
 NEXT MCNext
 INVARIANTS TypeOK Progress
